@@ -51,7 +51,7 @@ var disturbances = map[bool][]string{
 		"timeout", "cancel", "cancel from=third", "coop", "coop badkey", "coop wrongkey", "coop from=third", "csv", "claimpaid", "feepaid",
 		"blocks btc 1008", "blocks lbtc 10080", "rewind btc 2", "txmsg", "agree", "agree badpubkey", "agree premium=2000000", "confirm",
 		"fault send down", "fault opening down", "fault height.btc down", "fault height.lbtc down", "fault getpayreq down", "fault csv down", "fault coop down",
-		"fault outputscript down", "fault balance down", "fault openingfee down", "fault label down",
+		"fault outputscript down", "fault balance down", "fault openingfee down", "fault label down", "fault opening-after down",
 	},
 }
 
